@@ -167,6 +167,17 @@ Theorem C05_order_preserved_single : forall c i o s, cache c = None ->
 Proof. exact insert_single_lands. Qed.
 Print Assumptions C05_order_preserved_single.
 
+(* the same on Circuit.all_operations(): existing operations keep their order, and among the operations
+   conflicting with o those before the insertion point precede it, those from it on follow it *)
+Theorem C05_order_preserved_single_lin : forall c i o s, cache c = None ->
+  let k := clamp_index i (length (moms c)) in
+  exists c' z l1 l2, insert c i [IOp o] s = (c', inl z) /\
+    lin (moms c) = l1 ++ l2 /\ lin (moms c') = l1 ++ o :: l2 /\
+    filter (fun x => conflicts x o) l1 = filter (fun x => conflicts x o) (lin (firstn k (moms c))) /\
+    filter (fun x => conflicts x o) l2 = filter (fun x => conflicts x o) (lin (skipn k (moms c))).
+Proof. exact insert_single_order. Qed.
+Print Assumptions C05_order_preserved_single_lin.
+
 (* ... and the cached EARLIEST append lands the same way at the end *)
 Theorem C05_order_preserved_cached_append : forall pc ms o idx pc',
   cache_matches pc ms -> cache_append pc (IOp o) = (idx, pc') ->
